@@ -111,6 +111,14 @@ func run(r *core.Run) {
 			add1("{" + k + ":" + a + "}")
 		}
 	}
+	for _, k := range stringsUpTo(1) {
+		add1("{" + k + ":1}")
+		add1("{" + k + ":" + k + ",\"z\":[" + k + "]}")
+	}
+	for _, k := range stringsUpTo(1) {
+		add1("{" + k + ":1}")
+		add1("{" + k + ":" + k + ",\"z\":[" + k + "]}")
+	}
 	for _, k1 := range keys {
 		for _, k2 := range keys {
 			add1("{" + k1 + ":1," + k2 + ":2}") // includes duplicate keys (conflicting)
@@ -159,6 +167,16 @@ func run(r *core.Run) {
 		if r.Mine() {
 			c := kase{Kind: "data", CUE: d.CUE()}
 			r.Guard(c, func() { checkData(r, c, d) })
+		}
+	}
+	// every hostile string also as an object key (keys and values take
+	// different paths through the encoder)
+	for _, k := range gen.HostileStrings {
+		for _, d := range []gen.Data{gen.DStruct(k, gen.DInt("1")), gen.DStruct("x", gen.DStruct(k, gen.DList(gen.DStr(k)))), gen.DStruct(k, gen.DStr(k), "z", gen.DInt("2"))} {
+			if r.Mine() {
+				c := kase{Kind: "data", CUE: d.CUE()}
+				r.Guard(c, func() { checkData(r, c, d) })
+			}
 		}
 	}
 	small := gen.ScalarData([]string{"", "a", "<", "\u2028", "\n", "\U0001F600", "null"})
